@@ -250,7 +250,7 @@ MultiLine(ev, args, tbl, aux) ==
       k0   == ToSet(ev.k0)
       k1   == ToSet(ev.k1)
       pt   == PostTbl(tbl, ev)
-      D    == args.d * 1000
+      D    == IF args.d > 2000000 THEN 2000000000 ELSE IF args.d < -2000000 THEN -2000000000 ELSE args.d * 1000   \* 32-bit integers
       now0 == ev.tb + st.off
       now1 == ev.ta + st.off
       \* position (1-based, among applied frames) of the first / last frame of aircraft b, 0 if none
@@ -277,6 +277,9 @@ MultiLine(ev, args, tbl, aux) ==
                                         ELSE (b \in k0 => pt[b].ts = tbl[b].ts), ev, "ts")
   /\ Mark("C12", \E b \in k0 : staleAtStart(b) \/ freshAtEnd(b), ev)
   /\ Chk("C16", "filter.run", \A b \in ChSet(ev) : b \in addrs \/ b \in k0, ev, "filter")
+  /\ Chk("C16", "filtered.untouched", (na = 0 /\ ev.ok) => ev.ch = <<>>, ev, "nothing.applied")
+  /\ Chk("C13", "rejected.untouched", (na = 0 /\ ev.ok) => ev.ch = <<>>, ev, "nothing.applied")
+  /\ Mark("C16", na = 0 /\ args.f # <<>> /\ k0 # {}, ev)
 
 (***************************** paired runs *********************************)
 \* C13 / C19: the same run executed in slot 0 and then in slot 1; compared at the slot-1 event.
@@ -306,6 +309,11 @@ PairChecks(ev, t1) ==
        \* segmentation invariance: the same lines fed one per reader run (slot 0, accumulated in st.tbl[0]) and as a
        \* single run (slot 1) give the same table - state hidden inside the reader thread would break this
        /\ Chk("C11", "segmentation", kind = "seg" => TablesEqual(st.tbl[0], t1, NoStamps), ev, "seg")
+       /\ Chk("C03", "segmentation", kind = "seg3" => TablesEqual(st.tbl[0], t1, NoStamps), ev, "seg")
+       /\ Mark("C03", kind = "seg3", ev)
+       \* C09: the same velocity values under every option set, also for "no information" frames
+       /\ Chk("C09", "option.neutral", kind = "c09u" => TablesEqual(t0, t1, LAMBDA r : <<r.gs, r.trk, r.vr>>), ev, "U")
+       /\ Mark("C09", kind = "c09u" /\ ev.ch # <<>>, ev)
        \* C04: a corrupted copy right after the original, inside one reader run, leaves no trace: [F, F^e, G] = [F, G]
        /\ Chk("C04", "corrupted.copy", kind = "c04s" => TablesEqual(t0, t1, NoStamps), ev, "copy")
        /\ Mark("C04", kind = "c04s", ev)
@@ -395,14 +403,19 @@ CliStep(ev) ==
       shown == IF ev.last = <<>> THEN {} ELSE {RowAddr(ev.last[1].rows[j]) : j \in 1..Len(ev.last[1].rows)}
       observable == ev.quiet = FALSE /\ ev.args.d >= 60 /\ ev.args.u < 0
       wild == Wild(lis, ev.args.f)
-      dfs  == [j \in 1..Len(ai) |-> lis[ai[j]].df]
+      \* counting: frames of other formats count when their address is non-zero under both readings (AA position and
+      \* AP overlay); a frame for which the two readings disagree about zero makes the counter line unconstrained
+      cIdx == SelectSeq([k \in 1..n |-> k], LAMBDA k : lis[k].isf /\ PassesFilter(lis[k].df, ev.args.f)
+                          /\ (IF lis[k].df \in NineDF THEN lis[k].a # 0 ELSE lis[k].a # 0 /\ Field(lis[k].f, 9, 32) # 0))
+      ambiguous == \E k \in 1..n : lis[k].isf /\ lis[k].df \notin NineDF /\ ((lis[k].a = 0) # (Field(lis[k].f, 9, 32) = 0))
+      dfs  == [j \in 1..Len(cIdx) |-> lis[cIdx[j]].df]
       cnt  == IF ev.last = <<>> \/ ev.last[1].counts = <<>> THEN <<>> ELSE ParseCounts(ev.last[1].counts[1])
   IN  /\ Chk("C01", "cli.exit", ev.code = 0 /\ ~ev.timeout, ev, ev.profile)
       /\ Chk("C01", "cli.processed", (observable /\ ev.code = 0 /\ ~wild) => addrs \subseteq shown, ev, ev.profile)
       /\ Mark("C01", TRUE, ev)
       \* C16: only frames of the listed formats are applied; the counter line is exact
       /\ Chk("C16", "filter.table", (observable /\ ev.code = 0 /\ ~wild) => shown = addrs, ev, "table")
-      /\ Chk("C16", "counters", (observable /\ ev.code = 0 /\ ~wild /\ ev.args.c /\ Len(ai) > 0) => cnt = ExpectedCounts(dfs), ev,
+      /\ Chk("C16", "counters", (observable /\ ev.code = 0 /\ ~ambiguous /\ ev.args.c /\ Len(cIdx) > 0) => cnt = ExpectedCounts(dfs), ev,
              IF cnt # <<>> /\ cnt[1][1] # -1 /\ Len(cnt) = Len(ExpectedCounts(dfs))
                 /\ \A j \in 1..Len(cnt) : cnt[j][1] = ExpectedCounts(dfs)[j][1] /\ cnt[j][2] = ExpectedCounts(dfs)[j][2] + 1
              THEN "plus.one" ELSE "count")
@@ -487,6 +500,28 @@ TcpStep(ev) ==
   /\ Mark("C18", Len(ev.faults) > 0, ev)
   /\ Mark("C13", \E k \in 1..nc : ev.conns[k].kind = "junk", ev)
 
+
+(***************************** CLI pairs ***********************************)
+\* two runs of the real binary on the same input, option sets differing in one option; last refresh of each.
+\* ev: [opt, headerA, sepA, rowsA, headerB, sepB, rowsB, codeA, codeB]; DIST column excluded for -O
+CliPairStep(ev) ==
+  LET cols == Cols(ev.sepA)
+      same == ev.headerA = ev.headerB /\ ev.sepA = ev.sepB /\ Len(ev.rowsA) = Len(ev.rowsB)
+      \* for -O the DIST cell may differ (and may overflow its column, shifting what follows): compare what is left of it
+      \* and, counted from the end of the line, what is right of it
+      dcol == LET ix == {k \in 1..Len(cols) : ColName(ev.headerA, cols[k]) = N_DIST} IN IF ix = {} THEN <<>> ELSE <<cols[CHOOSE k \in ix : TRUE]>>
+      TailN(t, n) == IF n >= Len(t) THEN t ELSE SubSeq(t, Len(t) - n + 1, Len(t))
+      NoAges(t) == IF Len(t) >= 6 THEN SubSeq(t, 1, Len(t) - 6) ELSE t          \* "PTH LC" at the end of a row are ages
+      cellsEq(j) ==
+        IF ev.opt = "O" /\ dcol # <<>> THEN
+             LET c == dcol[1]  n == Len(ev.headerA) - (c.s + c.w - 1) IN
+             /\ SubSeq(ev.rowsA[j], 1, Min(c.s - 1, Len(ev.rowsA[j]))) = SubSeq(ev.rowsB[j], 1, Min(c.s - 1, Len(ev.rowsB[j])))
+             /\ NoAges(TailN(ev.rowsA[j], n)) = NoAges(TailN(ev.rowsB[j], n))
+        ELSE NoAges(ev.rowsA[j]) = NoAges(ev.rowsB[j])
+  IN  /\ Chk("C19", "cli.exit", ev.codeA = 0 /\ ev.codeB = 0, ev, ev.opt)
+      /\ Chk("C19", "cli.same.table", same /\ \A j \in 1..Len(ev.rowsA) : cellsEq(j), ev, ev.opt)
+      /\ Mark("C19", Len(ev.rowsA) > 0, ev)
+
 (***************************** events **************************************)
 RunStep(ev) ==
   LET s    == ev.slot
@@ -555,6 +590,7 @@ Step(ev) ==
   ELSE IF ev.e = "tick" THEN TickStep(ev)
   ELSE IF ev.e = "save" THEN SaveStep(ev)
   ELSE IF ev.e = "restore" THEN RestoreStep(ev)
+  ELSE IF ev.e = "clipair" THEN (IF CliPairStep(ev) THEN st ELSE st)
   ELSE IF ev.e = "tcp" THEN (IF TcpStep(ev) THEN st ELSE st)
   ELSE IF ev.e = "print" THEN (IF PrintStep(ev) THEN st ELSE st)
   ELSE IF ev.e = "country" THEN (IF CountryStep(ev) THEN st ELSE st)
